@@ -151,20 +151,29 @@ def inline_predicate(crate, cond, depth=0):
     body = crate.user_body(g).hir
     while isinstance(body, dict) and body.get('k') == 'block' and not body.get('stmts') and 'tail' in body:
         body = body['tail']
+    pids = {}
+    # `let x = e; .. ; <tail>`: plain single-assignment lets are substituted into the tail as well
+    if isinstance(body, dict) and body.get('k') == 'block' and 'tail' in body and \
+            all(isinstance(st, dict) and st.get('k') in ('let', 'nop') for st in body.get('stmts', [])):
+        for st in body['stmts']:
+            if st.get('k') == 'let' and st['pat'].get('k') == 'bind' and st.get('init') is not None and 'else' not in st:
+                pids[st['pat']['id']] = st['init']
+            elif st.get('k') == 'let':
+                return cond
+        body = body['tail']
     if not isinstance(body, dict) or body.get('k') == 'block':
         return cond
-    pids = {}
     for p_, a_ in zip(g.params, cond['args']):
         if isinstance(p_, dict) and p_.get('k') == 'bind':
             pids[p_['id']] = a_
 
-    def sub(e):
+    def sub(e, depth_=0):
         if isinstance(e, dict):
-            if e.get('k') == 'path' and e.get('res') == 'local' and e.get('id') in pids:
-                return pids[e['id']]
-            return {kk: sub(vv) for kk, vv in e.items()}
+            if e.get('k') == 'path' and e.get('res') == 'local' and e.get('id') in pids and depth_ < 6:
+                return sub(pids[e['id']], depth_ + 1)
+            return {kk: sub(vv, depth_) for kk, vv in e.items()}
         if isinstance(e, list):
-            return [sub(x) for x in e]
+            return [sub(x, depth_) for x in e]
         return e
     return inline_predicate(crate, sub(copy.deepcopy(body)), depth + 1)
 
